@@ -3,9 +3,11 @@
 Tie to the code: REAL `DynamicObject` lists (BASE_LINK, and MAP with a random ego pose registered as a
 base_link→map `HomogeneousMatrix` in a `TransformDict`), REAL `DynamicObject2D` lists, REAL
 `DynamicObjectWithPerceptionResult` lists and the REAL `PerceptionEvaluationManager._filter_objects`
-are pushed through `filter_objects` / `filter_object_results`; the kept ids (in order) and the
-exception kinds are compared with the Lean model `PEval.Filter` (which receives the ego-relative
-position exactly as the real transform produced it).
+are pushed through `filter_objects` / `filter_object_results`; the kept ids (in order) and
+raised-vs-returned are compared with the Lean model `PEval.Filter` (which receives the ego-relative
+position exactly as the real transform produced it) -- inside the docstrings' contract and leaving out
+the objects on which the property text leaves the outcome open (`noclaim:*`, see `_verdict`); outside
+the contract a difference (also of the exception class) is a counted skip.
 
 Oracle (independent of the model): the kept set recomputed from the property's criteria in exact
 `Fraction`s — ego-relative position through an exact rational rigid motion (the poses are rational
@@ -70,9 +72,20 @@ ASSUMPTIONS = [
     "decision table: order atoms of different pairs of terms (and Boolean atoms) are treated as independent - an "
     "over-approximation of the input space, sound for 'table = model'; when the source leaves the abstraction the table "
     "is marked untranslatable (branch key table:untranslatable) and only the correspondence ties model and code",
-    "contract of the docstrings: per-label lists have the length of a non-empty target_labels; objects are complete "
-    "(position, point count, registered transform). Outside it the Python exceptions (TypeError, IndexError, "
-    "AssertionError, AttributeError, KeyError) are modelled and compared, but the oracle makes no kept-set claim",
+    "contract of the docstrings: every per-label list that is given has the length of target_labels (\"each of them must be same "
+    "length list\"), the object's label has an entry; objects are complete (position, point count, registered transform). Outside "
+    "it the oracle makes no claim at all and a difference between code and model (also: which exception, or none) is a counted skip "
+    "of the correspondence, never a disagreement; inside it only raised-vs-returned is compared, not the exception class",
+    "where the property text and today's code part ways, or the text is silent, the oracle makes no claim about the object and the "
+    "object is left out of the model comparison (reasons `noclaim:*` in the branch histogram, listed in `_verdict`): confidence applied "
+    "to ground truths, attributes of a result's estimate not tested, confidence bound 0 and no attribute test for relaxed unknown "
+    "estimates, target_labels == [], a key that is only a substring of the label name, ground-truth-less results under target uuids. "
+    "The Lean model and the regenerated decision table of `_is_target_object` follow the code also there (theorems "
+    "isTarget_table_check / isTarget_code_table_eq_model): a change of the code on those inputs breaks these theorems and is reported "
+    "without a failing input",
+    "manager level: `_filter_objects` is resolved with getattr, the per-case criteria are installed by assigning "
+    "`evaluator_config.filtering_params` / `target_labels` and read back through the manager's public properties; when either is not "
+    "possible the manager observation is dropped for the run (branch `unobservable:*`), never reported",
     "target_labels contains LabelType members only (no CommonLabel members); target_uuids is a list of str or None",
     "strings are compared code point by code point (Python str / Lean String)",
 ]
@@ -216,31 +229,69 @@ def _ego(td, obj):
         return None
 
 
-def _ids(lst, idmap):
-    return [idmap[id(x)] for x in lst]
+class HarnessSetupError(RuntimeError):
+    """raised by harness code only (scene construction, manager set-up): run_check files it as an infrastructure error"""
+
+
+def _setup(fn, what):
+    """run a SET-UP step (building the scene with the library's constructors); a failure is not a statement about filtering"""
+    try:
+        return fn()
+    except Exception as e:  # noqa: BLE001
+        raise HarnessSetupError(f"{what}: {type(e).__name__}: {e}")
+
+
+def _snap_item(x):
+    if hasattr(x, "estimated_object"):
+        g = x.ground_truth_object
+        return ("result", _snap_obj(x.estimated_object), None if g is None else _snap_obj(g))
+    return _snap_obj(x)
+
+
+def _ids(lst, items, ids):
+    """ids of the returned elements: the element of the input list it IS, else (a filter that hands out copies) the first
+    not yet used input element with the same value; -1 for an element that is neither ("sub-list" is a statement about
+    which objects are returned, not about Python object identity)"""
+    pos = {}
+    for i, x in enumerate(items):
+        pos.setdefault(id(x), i)
+    used, out, snaps = set(), [], None
+    for x in lst:
+        i = pos.get(id(x))
+        if i is None:
+            if snaps is None:
+                snaps = [_snap_item(y) for y in items]
+            sx = _snap_item(x)
+            i = next((j for j, sy in enumerate(snaps) if j not in used and sy == sx), None)
+            if i is not None:
+                used.add(i)
+        out.append(-1 if i is None else ids[i])
+    return out
 
 
 def _call(fn):
     try:
         return {"ok": fn()}
-    except Exception as e:  # the kind is the observable
-        return {"err": type(e).__name__}
+    except Exception as e:  # raised vs returned is the observable; the class is kept for the histogram / the model comparison
+        return {"err": type(e).__name__, "exc": e}
 
 
 # ----------------------------------------------------------------------------- implementation runner
 
 def run_impl(case):
+    """`out["err"]` comes from the calls the property is about only (filter_objects / filter_object_results /
+    PerceptionEvaluationManager._filter_objects); building the scene is set-up (HarnessSetupError -> infrastructure)"""
     M = _mods()
     kind = case["kind"]
     if kind == "manager":
         return _run_manager(case)
-    td = _mk_tf(case["tf"])
+    td = _setup(lambda: _mk_tf(case["tf"]), "TransformDict of the scene")
     kw = _mk_params(case["params"])
     out = {}
     if kind == "objects":
         specs = case["objects"]
-        objs = [_mk_obj(o) for o in specs]
-        idmap = {id(x): o["id"] for x, o in zip(objs, specs)}
+        objs = _setup(lambda: [_mk_obj(o) for o in specs], "objects of the scene")
+        ids = [o["id"] for o in specs]
         flat = objs
         items = objs
 
@@ -248,18 +299,18 @@ def run_impl(case):
             return M["filter_objects"](items_, case["is_gt"], transforms=td, **kw_)
     else:
         specs = case["results"]
-        items, flat, idmap = [], [], {}
+        items, flat, ids = [], [], []
         try:
             for r in specs:
                 e = _mk_obj(r["est"])
                 g = _mk_obj(r["gt"]) if r["gt"] is not None else None
                 res = M["Result"](e, g, transforms=td)
-                idmap[id(res)] = r["id"]
+                ids.append(r["id"])
                 items.append(res)
                 flat.append(e)
                 if g is not None:
                     flat.append(g)
-        except Exception as e:  # the scene cannot even be built (not the filter's business)
+        except Exception as e:  # the scene cannot even be built (not the filter's business); counted: branch not-filtered:*
             return {"build_err": type(e).__name__}
 
         def run(items_, kw_):
@@ -273,6 +324,7 @@ def run_impl(case):
     before = [_snap_obj(x) for x in flat]
     before_kw = _snap_params(kw)
     r = _call(lambda: run(items, kw))
+    # "never mutates its input": the caller's list (length, the very elements), every object, every parameter list
     out["unchanged"] = bool(
         len(items) == len(before_items) and all(a is b for a, b in zip(items, before_items))
         and [_snap_obj(x) for x in flat] == before and _snap_params(kw) == before_kw
@@ -281,22 +333,25 @@ def run_impl(case):
         out["err"] = r["err"]
         return out
     kept = r["ok"]
-    out["fresh_list"] = kept is not items
-    out["kept"] = _ids(kept, idmap)
+    out["kept"] = _ids(kept, items, ids)
     # idempotence: the real filter applied to its own output
-    r2 = _call(lambda: run(list(kept), kw))
-    out["twice"] = _ids(r2["ok"], idmap) if "ok" in r2 else {"err": r2["err"]}
+    kept_list = list(kept)
+    kept_ids = list(out["kept"])
+    r2 = _call(lambda: run(kept_list, kw))
+    out["twice"] = _ids(r2["ok"], kept_list, kept_ids) if "ok" in r2 else {"err": r2["err"]}
     # monotonicity: the real filter under widened bounds
     if case.get("wider") is not None:
         r3 = _call(lambda: run(items, _mk_params(case["wider"])))
-        out["wider"] = _ids(r3["ok"], idmap) if "ok" in r3 else {"err": r3["err"]}
+        out["wider"] = _ids(r3["ok"], items, ids) if "ok" in r3 else {"err": r3["err"]}
     return out
 
 
 _MGR = {}
+UNOBSERVABLE = Counter()
 
 
 def _manager():
+    """ONE real manager WITHOUT a dataset (`dataset_paths=[]`: nothing is loaded, the property needs no dataset)"""
     if "m" in _MGR:
         return _MGR["m"]
     import tempfile
@@ -304,65 +359,120 @@ def _manager():
     from perception_eval.config import PerceptionEvaluationConfig
     from perception_eval.manager import PerceptionEvaluationManager
 
-    cfg = PerceptionEvaluationConfig(
-        dataset_paths=[str(core.REPO / "perception_eval" / "test" / "sample_data")], frame_id="base_link",
-        result_root_directory=tempfile.mkdtemp(),
-        evaluation_config_dict={
-            "evaluation_task": "detection", "target_labels": ["car", "bicycle", "pedestrian", "motorbike"],
-            "max_x_position": 100.0, "max_y_position": 100.0, "min_point_numbers": [0, 0, 0, 0],
-            "label_prefix": "autoware", "merge_similar_labels": False, "allow_matching_unknown": True,
-            "center_distance_thresholds": [[1.0, 1.0, 1.0, 1.0]], "plane_distance_thresholds": [2.0],
-            "iou_2d_thresholds": [0.5], "iou_3d_thresholds": [0.5],
-        },
-    )
-    _MGR["m"] = PerceptionEvaluationManager(cfg)
+    def build():
+        cfg = PerceptionEvaluationConfig(
+            dataset_paths=[], frame_id="base_link",
+            result_root_directory=tempfile.mkdtemp(prefix="c10_"),
+            evaluation_config_dict={
+                "evaluation_task": "detection", "target_labels": ["car", "bicycle", "pedestrian", "motorbike"],
+                "max_x_position": 100.0, "max_y_position": 100.0, "min_point_numbers": [0, 0, 0, 0],
+                "label_prefix": "autoware", "merge_similar_labels": False, "allow_matching_unknown": True,
+                "center_distance_thresholds": [[1.0, 1.0, 1.0, 1.0]], "plane_distance_thresholds": [2.0],
+                "iou_2d_thresholds": [0.5], "iou_3d_thresholds": [0.5],
+            },
+        )
+        return PerceptionEvaluationManager(cfg)
+
+    _MGR["m"] = _setup(build, "PerceptionEvaluationManager without a dataset")
     return _MGR["m"]
 
 
+def _unobservable(name, flags=None, ego=None):
+    UNOBSERVABLE[name] += 1
+    return {"unobservable": name, "flags": flags or [], "ego": ego or {}, "unchanged": True}
+
+
+def _raised_while_filtering(exc):
+    """did the exception leave `_filter_objects` from one of the filter calls (or from a statement of the manager method
+    itself, e.g. a call with wrong keywords) rather than from the matcher that runs after filtering?"""
+    names = []
+    tb = exc.__traceback__
+    while tb is not None:
+        names.append(tb.tb_frame.f_code.co_name)
+        tb = tb.tb_next
+    if any(n in ("filter_objects", "filter_object_results") for n in names):
+        return True
+    return bool(names) and names[-1] == "_filter_objects"
+
+
 def _run_manager(case):
-    """the objects that reach matching inside PerceptionEvaluationManager._filter_objects"""
+    """the objects that reach matching inside PerceptionEvaluationManager._filter_objects (anchor `observe_at`).  The method
+    is private: it is resolved with getattr and, when it is not there, the observation is dropped for the run (histogram
+    key `unobservable:_filter_objects`) -- never a violation.  The per-case criteria are installed by ASSIGNING a new
+    `filtering_params` / `target_labels` to the configuration and reading them back through the manager's public
+    properties; when that does not take (e.g. a copying read-only property) the observation is dropped likewise."""
     from perception_eval.common.dataset import FrameGroundTruth
 
     m = _manager()
+    fo = getattr(m, "_filter_objects", None)
+    if fo is None:
+        return _unobservable("_filter_objects")
     td_list = None
     if case["tf"] is not None:
-        td = _mk_tf(case["tf"])
-        td_list = [td[k] for k in td.keys()]
+        td = _setup(lambda: _mk_tf(case["tf"]), "TransformDict of the scene")
+        td_list = _setup(lambda: [td[k] for k in td.keys()], "matrices of the TransformDict")
     kw = _mk_params(case["params"])
-    ests = [_mk_obj(o) for o in case["estimates"]]
-    gts = [_mk_obj(o) for o in case["objects"]]
-    idmap = {id(x): o["id"] for x, o in zip(ests + gts, case["estimates"] + case["objects"])}
-    frame = FrameGroundTruth(100, "0", gts, transforms=td_list)
-    fp = m.evaluator_config.filtering_params
-    saved = dict(fp)
-    saved_labels = m.evaluator_config.target_labels
+    ests = _setup(lambda: [_mk_obj(o) for o in case["estimates"]], "estimates of the scene")
+    gts = _setup(lambda: [_mk_obj(o) for o in case["objects"]], "ground truths of the scene")
+    all_specs = case["estimates"] + case["objects"]
+    all_ids = [o["id"] for o in all_specs]
+    frame = _setup(lambda: FrameGroundTruth(100, "0", gts, transforms=td_list), "FrameGroundTruth")
+    cfg = m.evaluator_config
+    saved = getattr(cfg, "filtering_params", None)
+    if not isinstance(saved, dict) or not hasattr(cfg, "target_labels"):
+        return _unobservable("filtering_params")
+    saved_labels = cfg.target_labels
     out = {"flags": [[o["id"], bool(x.semantic_label.is_fp()), bool(x.semantic_label.is_unknown())]
-                     for o, x in zip(case["estimates"] + case["objects"], ests + gts)],
-           "ego": {str(o["id"]): _ego(frame.transforms, x) for o, x in zip(case["estimates"] + case["objects"], ests + gts)}}
+                     for o, x in zip(all_specs, ests + gts)],
+           "ego": {str(o["id"]): _ego(frame.transforms, x) for o, x in zip(all_specs, ests + gts)}}
     before = [_snap_obj(x) for x in ests + gts]
+    frame_list = frame.objects  # the list the frame holds (the caller's, or the constructor's copy of it)
+    frame_elems = list(frame_list)
+    new = dict(saved)
+    new.update(kw)
+    new["max_matchable_radii"] = None
     try:
-        fp.update(kw)
-        fp["max_matchable_radii"] = None
-        m.evaluator_config.target_labels = kw["target_labels"]
-        r = _call(lambda: m._filter_objects(list(ests), frame))
+        try:
+            cfg.filtering_params = new
+            cfg.target_labels = kw["target_labels"]
+        except AttributeError:
+            return _unobservable("filtering_params", out["flags"], out["ego"])
+        seen = m.filtering_params
+        if not (isinstance(seen, dict) and all(seen.get(k) == new[k] for k in new) and list(m.target_labels) == kw["target_labels"]):
+            return _unobservable("filtering_params", out["flags"], out["ego"])
+        est_arg = list(ests)
+        r = _call(lambda: fo(est_arg, frame))
     finally:
-        fp.clear()
-        fp.update(saved)
-        m.evaluator_config.target_labels = saved_labels
-    out["unchanged"] = bool(frame.objects is gts and [_snap_obj(x) for x in ests + gts] == before
-                            and [id(x) for x in frame.objects] == [id(x) for x in gts])
+        try:
+            cfg.filtering_params = saved
+            cfg.target_labels = saved_labels
+        except AttributeError:
+            pass
+    # "never mutates its input": the frame still holds the caller's list with the very same objects, the objects are unchanged
+    out["unchanged"] = bool(frame.objects is frame_list and [_snap_obj(x) for x in ests + gts] == before
+                            and len(frame_list) == len(frame_elems) and all(a is b for a, b in zip(frame_list, frame_elems))
+                            and len(est_arg) == len(ests) and all(a is b for a, b in zip(est_arg, ests)))
     if "err" in r:
         M = _mods()
         a = _call(lambda: M["filter_objects"](list(ests), False, transforms=frame.transforms, **kw))
         b = _call(lambda: M["filter_objects"](list(gts), True, transforms=frame.transforms, **kw))
-        if "ok" in a and "ok" in b:  # raised by the matcher, after filtering: not this property's business
+        if "ok" in a and "ok" in b and not _raised_while_filtering(r["exc"]):
+            # raised by the matcher, after filtering: not this property's business (counted: compare returns "skip")
             return {"matching_err": r["err"], "flags": out["flags"], "ego": out["ego"], "unchanged": out["unchanged"]}
         out["err"] = r["err"]
         return out
-    results, frame2 = r["ok"]
-    out["gt_kept"] = _ids(frame2.objects, idmap)
-    out["est_in_results"] = sorted(idmap[id(x.estimated_object)] for x in results)
-    out["result_gt"] = [None if x.ground_truth_object is None else idmap[id(x.ground_truth_object)] for x in results]
+    try:
+        results, frame2 = r["ok"]
+        kept_gts = list(frame2.objects)
+        est_objs = [x.estimated_object for x in results]
+        gt_objs = [x.ground_truth_object for x in results]
+    except (TypeError, ValueError, AttributeError):
+        return _unobservable("_filter_objects (return value)", out["flags"], out["ego"])
+    gt_ids = [o["id"] for o in case["objects"]]
+    est_ids = [o["id"] for o in case["estimates"]]
+    out["gt_kept"] = _ids(kept_gts, gts, gt_ids)
+    out["est_in_results"] = sorted(_ids(est_objs, ests, est_ids))
+    out["result_gt"] = [None if g is None else _ids([g], gts, gt_ids)[0] for g in gt_objs]
     return out
 
 
@@ -393,7 +503,7 @@ def _model_obj(o, ego):
 
 
 def model_requests(case, out):
-    if "build_err" in out or "matching_err" in out:
+    if "build_err" in out or "unobservable" in out or out.get("unexpected"):
         return []
     ego = out.get("ego", {})
     kind = case["kind"]
@@ -455,15 +565,30 @@ def extra_evidence():
     return {"decision_table_is_target_object": dict(info, status=key),
             "model_branches": dict(sorted(MODEL_BRANCHES.items())),
             "objects_excluded_near_float_boundary": NEAR["objects"],
+            "objects_excluded_where_the_text_leaves_the_outcome_open": NEAR["text_open_objects"],
+            "unobservable": dict(UNOBSERVABLE),
             "cases_with_an_excluded_object": NEAR["cases"]}
 
 
+def _open_ids(case, exp):
+    """ids (objects; results) on which the property text leaves the outcome open (`noclaim:*`, see _verdict)"""
+    if isinstance(exp, OutOfContract):
+        return set()
+    rows = exp if not isinstance(exp, dict) else exp["est"] + exp["gt"]
+    return {i for i, v, why in rows if v is None and _open(why)}
+
+
 def compare(case, out, resps):
-    """kept ids in order and exception kinds, exactly. An object whose np.mean / math.hypot comparison has a
-    non-zero margin below 1e-7 (the model says which) is left out of both lists; a case is skipped only when
-    that leaves nothing to compare."""
-    if "build_err" in out or "matching_err" in out:
+    """What the property observes: the kept ids in order, and raised-vs-returned.  Left out of both lists: an object whose
+    np.mean / math.hypot comparison has a non-zero margin below 1e-7 (the model says which) and an object on which the
+    property text leaves the outcome open (`noclaim:*`: the model follows today's code there, the property-conform outcome
+    must be accepted too).  Counted skips: nothing left to compare; the matcher raised after filtering; a DIFFERENCE on an
+    input outside the contract (malformed list lengths, objects without position / transform / point count: the text says
+    nothing about them, neither that nor how they are refused)."""
+    if "build_err" in out or "unobservable" in out:
         return None
+    if "matching_err" in out:
+        return "skip"
     _note_model_branches(resps)
     flags = sorted(map(tuple, out.get("flags", [])))
     mflags = sorted(tuple(f) for r in resps for f in r.get("flags", []))
@@ -473,37 +598,50 @@ def compare(case, out, resps):
     if near:
         NEAR["objects"] += len(near)
         NEAR["cases"] += 1
+    exp = _expect(case)
+    in_contract = not isinstance(exp, OutOfContract)
+    opn = _open_ids(case, exp)
+    if opn:
+        NEAR["text_open_objects"] += len(opn)
+
+    def differ(msg):
+        return msg if in_contract else "skip"
+
     if case["kind"] == "manager":
         est, gt = resps
         # estimates are filtered first; an exception there pre-empts the ground-truth filter
         merr = est.get("err") or gt.get("err")
         if "err" in out or merr:
-            if out.get("err") == merr:
+            if ("err" in out) == bool(merr) and (in_contract or out.get("err") == merr):
                 return None
-            # a near-boundary object may reach (or not reach) a raising stage on one side only
-            return "skip" if near else f"impl err {out.get('err')} != model err {merr}"
-        a, b = [i for i in out["gt_kept"] if i not in near], [i for i in gt["kept"] if i not in near]
+            # a near-boundary / text-open object may reach (or not reach) a raising stage on one side only
+            return "skip" if (near or opn) else differ(f"impl err {out.get('err')} != model err {merr}")
+        drop = near | opn
+        a, b = [i for i in out["gt_kept"] if i not in drop], [i for i in gt["kept"] if i not in drop]
         if a != b:
-            return f"ground truths reaching matching: impl {a} model {b}"
-        a, b = [i for i in out["est_in_results"] if i not in near], sorted(i for i in est["kept"] if i not in near)
+            return differ(f"ground truths reaching matching: impl {a} model {b}")
+        a, b = [i for i in out["est_in_results"] if i not in drop], sorted(i for i in est["kept"] if i not in drop)
         if not case["params"].get("target_uuids") and a != b:
-            return f"estimates reaching matching: impl {a} model {b}"
+            return differ(f"estimates reaching matching: impl {a} model {b}")
         return None
     r = resps[0]
     if "err" in out or "err" in r:
-        if out.get("err") == r.get("err"):
+        # raised vs returned; the class is compared only to notice a difference outside the contract (then: counted skip)
+        if ("err" in out) == ("err" in r) and (in_contract or out.get("err") == r.get("err")):
             return None
-        # a near-boundary object may reach (or not reach) a raising stage on one side only
-        return "skip" if near else f"impl {out.get('err') or out.get('kept')} != model {r.get('err') or r.get('kept')}"
+        return "skip" if (near or opn) else differ(f"impl {out.get('err') or out.get('kept')} != model {r.get('err') or r.get('kept')}")
     if case["kind"] == "results":
         near = {x["id"] for x in case["results"] if x["est"]["id"] in near or (x["gt"] is not None and x["gt"]["id"] in near)}
         n_all = len(case["results"])
     else:
         n_all = len(case["objects"])
-    if near and len(near) == n_all:
+    drop = near | opn
+    if drop and len(drop) == n_all:
         return "skip"
-    a, b = [i for i in out["kept"] if i not in near], [i for i in r["kept"] if i not in near]
-    return None if a == b else f"kept ids: impl {a} != model {b}" + (f" (left out near a float boundary: {sorted(near)})" if near else "")
+    a, b = [i for i in out["kept"] if i not in drop], [i for i in r["kept"] if i not in drop]
+    if a == b:
+        return None
+    return differ(f"kept ids: impl {a} != model {b}" + (f" (left out near a float boundary: {sorted(near)}; text-open: {sorted(opn)})" if drop else ""))
 
 
 # ----------------------------------------------------------------------------- the oracle (exact, independent)
@@ -547,15 +685,34 @@ def _ego_exact(o, tf):
     raise OutOfContract("no transform registered")
 
 
-def _verdict(o, P, is_gt, tf):
-    """(keep?, reason): True / False / None (within float reach of a bound) by the property's criteria"""
+NOCLAIM = "noclaim:"
+
+
+def _verdict(o, P, is_gt, tf, est_of_result=False):
+    """(keep?, reason) by the property's criteria: True / False / None.
+
+    None = the oracle makes NO CLAIM about the object: a decision within float reach of a bound (`ambiguous`), a range
+    criterion without an ego-relative position (`undetermined:*`), or -- reason `noclaim:*` -- an input on which the property
+    TEXT and today's code part ways or the text is silent, so that both outcomes are accepted (and the object is left out of
+    the model comparison as well, the Lean model follows the code):
+      noclaim:gt-confidence           "whose confidence (estimates) or point count and uuid (ground truth) satisfy that label's
+                                      thresholds": confidence is a criterion of ESTIMATES; the code also applies it to ground truths
+      noclaim:est-ignored-attribute   "removes a result when either its estimate or its ground truth fails" + "carries no ignored
+                                      attribute": the code does not test the attributes of a result's estimate
+      noclaim:relaxed-confidence      "unknown-labelled estimates are judged against the mean bounds": the code uses 0, not the mean
+      noclaim:relaxed-attribute       the relaxation speaks of bounds; the code also skips the attribute test
+      noclaim:empty-target-list       `target_labels == []`: the text does not say whether that targets everything or nothing
+      noclaim:attr-name-substring     "carries no ignored attribute": a key that is only a substring of the label NAME
+      noclaim:no-gt-with-target-uuids (results) "uuid (ground truth)": a result without ground truth has no uuid to fail
+    """
     L = o["label"]
     if L in FP_LABELS:
-        return True, "fp-passes"
+        return True, "fp-passes"  # "false-positive-labelled objects always pass"
     targets = P.get("target_labels")
     relaxed = L in UNKNOWN_LABELS and not is_gt and not (targets is not None and any(t in UNKNOWN_LABELS for t in targets))
     pos, inexact = _ego_exact(o, tf)
     tag = "relaxed:" if relaxed else ""
+    opens = []
 
     def bound(lst):
         if relaxed:
@@ -589,16 +746,38 @@ def _verdict(o, P, is_gt, tf):
         return None if r else (False, tag + reason)
 
     if not relaxed:
-        if targets and L not in targets:
+        if targets is not None and len(targets) == 0:
+            opens.append("empty-target-list")
+        elif targets and L not in targets:
             return False, "rej:label"
-        ia = P.get("ignore_attributes")
-        if ia is not None and any((k in o["name"]) or (k in o["attrs"]) for k in ia):
-            return False, "rej:attr"
+    ia = P.get("ignore_attributes")
+    if ia is not None:
+        member = any(k in o["attrs"] for k in ia)
+        in_name = any(k in o["name"] for k in ia)
+        if member or in_name:
+            if relaxed:
+                opens.append("relaxed-attribute")
+            elif est_of_result:
+                opens.append("est-ignored-attribute")
+            elif member:
+                return False, "rej:attr"
+            else:
+                opens.append("attr-name-substring")
     conf = P.get("confidence_threshold_list")
     if conf is not None:
-        t = Fraction(0) if relaxed else bound(conf)
-        if not (Fraction(o["score"]) > t):
-            return False, tag + "rej:conf"
+        sc = Fraction(o["score"])
+        if relaxed:
+            mean = bound(conf)
+            pass0, passm = sc > 0, (mean is not None and sc > mean)
+            if not pass0 and not passm:
+                return False, tag + "rej:conf"
+            if pass0 != passm:
+                opens.append("relaxed-confidence")
+        elif not (sc > bound(conf)):
+            if is_gt:
+                opens.append("gt-confidence")
+            else:
+                return False, "rej:conf"
     if pos is not None:
         x, y = pos
         d2 = x * x + y * y
@@ -635,6 +814,8 @@ def _verdict(o, P, is_gt, tf):
     uu = P.get("target_uuids")
     if uu is not None and is_gt and o["uuid"] not in uu:
         return False, "rej:uuid"
+    if opens:
+        return None, tag + NOCLAIM + opens[0]
     if nopos:
         return None, tag + "undetermined:range-configured-but-no-position"
     if amb[0]:
@@ -643,8 +824,9 @@ def _verdict(o, P, is_gt, tf):
 
 
 def _est_params(P):
+    """the estimate of a result: confidence, label, range AND attributes ("removes a result when either its estimate or its
+    ground truth fails"); point count and uuid are ground-truth criteria"""
     Q = dict(P)
-    Q["ignore_attributes"] = None
     Q["min_point_numbers"] = None
     Q["target_uuids"] = None
     return Q
@@ -654,6 +836,21 @@ def _gt_params(P):
     Q = dict(P)
     Q["confidence_threshold_list"] = None
     return Q
+
+
+def _open(why):
+    return NOCLAIM in why
+
+
+def _case_contract(P):
+    """docstring of filter_objects / filter_object_results: "If any of `target_labels`, `max_x_position_list`, ...,
+    `min_point_numbers` or `confidence_threshold_list` are specified, each of them must be same length list."  A call that
+    breaks this is outside the contract whatever the objects are (an implementation may validate it up front)"""
+    t = P.get("target_labels")
+    for k in LABEL_PARAMS:
+        v = P.get(k)
+        if v is not None and (t is None or len(v) != len(t)):
+            raise OutOfContract("a per-label list whose length differs from target_labels")
 
 
 _MEMO = {}
@@ -667,12 +864,13 @@ def _expect(case, which="params"):
     P = case[which]
     tf = case["tf"]
     try:
+        _case_contract(P)
         if case["kind"] == "objects":
             res = [(o["id"],) + _verdict(o, P, case["is_gt"], tf) for o in case["objects"]]
         elif case["kind"] == "results":
             res = []
             for r in case["results"]:
-                ve, re_ = _verdict(r["est"], _est_params(P), False, tf)
+                ve, re_ = _verdict(r["est"], _est_params(P), False, tf, est_of_result=True)
                 if r["gt"] is not None:
                     vg, rg = _verdict(r["gt"], _gt_params(P), True, tf)
                     if ve is False or vg is False:
@@ -685,8 +883,8 @@ def _expect(case, which="params"):
                 else:
                     v = ve
                     why = "est:" + re_ + "|gt:none"
-                    if P.get("target_uuids"):
-                        v, why = False, why + "|rej:no-gt-with-target-uuids"
+                    if P.get("target_uuids") and v is not False:
+                        v, why = None, why + "|" + NOCLAIM + "no-gt-with-target-uuids"
                     res.append((r["id"], v, why))
         else:
             tfm = case["tf"] if case["tf"] is not None else []
@@ -719,8 +917,11 @@ def _check_kept(kept, exp, what):
 
 
 def oracle(case, out):
-    if "build_err" in out or "matching_err" in out:
+    if out.get("unexpected"):  # run_check reports these itself; kept total for older runners
+        return f"the real code raised {out.get('err')} unexpectedly"
+    if "build_err" in out or "matching_err" in out or "unobservable" in out:
         return None
+    # "never mutates its input"
     if not out.get("unchanged", True):
         return "the filter mutated its input (list, an object, or a parameter list)"
     exp = _expect(case)
@@ -738,8 +939,8 @@ def oracle(case, out):
             return f"an estimate appears in two results: {ids}"
         est = sorted(exp["est"])
         if case["params"].get("target_uuids"):
-            if any(g is None for g in out["result_gt"]):
-                return "a ground-truth-less result survived although target uuids are configured"
+            # results are filtered once more by the ground truths' uuids: which estimates survive depends on the matching;
+            # whether a ground-truth-less result survives is `noclaim:no-gt-with-target-uuids`
             bad = [i for i, v, _ in est if v is False and i in set(ids)]
             return f"estimates {bad} fail a criterion but reached the results" if bad else None
         return _check_kept(ids, est, "estimates reaching matching")
@@ -747,14 +948,17 @@ def oracle(case, out):
         return f"the filter raised {out['err']} on an in-contract input" if in_contract else None
     kept = out["kept"]
     all_ids = [o["id"] for o in case["objects"]] if case["kind"] == "objects" else [r["id"] for r in case["results"]]
+    # "returns an order-preserving sub-list"
     if not _is_sublist(kept, all_ids):
         return f"kept {kept} is not an order-preserving sub-list of the input {all_ids}"
+    # "Filtering is idempotent"
     if out.get("twice") != kept:
         return f"not idempotent: filtering the result {kept} again gives {out.get('twice')}"
     if in_contract:
         f = _check_kept(kept, exp, "kept set")
         if f:
             return f
+    # "widening any bound never removes an object that was kept"
     if "wider" in out and case.get("wider") is not None:
         w = out["wider"]
         expw = _expect(case, "wider")
@@ -812,6 +1016,10 @@ def branches(case, out):
     if all(P.get(k) is None for k in ALL_PARAMS):
         br.append("trivial")
         br.append("no-criteria")
+    if out.get("unexpected"):
+        return br + ["unexpected:" + str(out.get("err")), "trivial"]
+    if "unobservable" in out:
+        return br + ["unobservable:" + str(out["unobservable"]), "trivial"]
     if "build_err" in out or "matching_err" in out:
         return br + ["not-filtered:" + str(out.get("build_err") or out.get("matching_err")), "trivial"]
     if "err" in out:
@@ -1104,9 +1312,15 @@ def table_witnesses():
     try:
         from .. import dt_c10
 
-        return dt_c10.witness_cases()
+        cases = dt_c10.witness_cases()
     except Exception:  # noqa: BLE001
         return []
+    for c in cases:  # point counts are integers in the model protocol
+        for which in ("params", "wider"):
+            v = (c.get(which) or {}).get("min_point_numbers")
+            if v is not None:
+                c[which]["min_point_numbers"] = [int(x) for x in v]
+    return cases
 
 
 def generate(rng, tier):
